@@ -1029,9 +1029,9 @@ theorem serve_encO_noFold (cfg : Cfg) (e : End) (rs : List OReq)
   refine ⟨?_, decodeAll_encO rs (fun r hr => (hw' r hr).1)⟩
   rw [serve_encO cfg e rs hw', hmap]
 
-/-! ### which requests close: both readings agree outside the obs-fold corner `noLeadTab` -/
+/-! ### which requests close: both readings agree -/
 
-theorem pickClose_strict_seen : ∀ (fs : List FLine) (d : Bool), (∀ f ∈ fs, wfFLine f = true ∧ noLeadTab f = true) →
+theorem pickClose_strict_seen : ∀ (fs : List FLine) (d : Bool), (∀ f ∈ fs, wfFLine f = true) →
     pickClose (fs.map hField) d = pickClose (fs.map sField) d
   | [], _, _ => rfl
   | f :: t, d, hw => by
@@ -1039,31 +1039,29 @@ theorem pickClose_strict_seen : ∀ (fs : List FLine) (d : Bool), (∀ f ∈ fs,
     have hf := hw f (by simp)
     have hb : (hval f == strClose) = (sval f == strClose) := by
       by_cases h1 : hval f = strClose
-      · have := sval_eq_hval_of_nb f hf.1 (by rw [h1]; decide)
+      · have := sval_eq_hval_of_nb f hf (by rw [h1]; decide)
         simp [this, h1]
       · by_cases h2 : sval f = strClose
-        · have := hval_eq_sval_of_nb f hf.1 hf.2 (by rw [h2]; decide)
+        · have := hval_eq_sval_of_nb f hf (by rw [h2]; decide)
           exact absurd (this.trans h2) h1
         · rw [beq_eq_false_iff_ne.mpr h1, beq_eq_false_iff_ne.mpr h2]
     rw [hb]
     exact pickClose_strict_seen t _ (fun x hx => hw x (by simp [hx]))
 
-theorem closes_seen_eq_strict {dn : Bool} (r : OReq) (h : wfOReq dn r = true)
-    (hlt : ∀ f ∈ r.fields, noLeadTab f = true) : closes (seenW r) = closes (strictW r) := by
+theorem closes_seen_eq_strict {dn : Bool} (r : OReq) (h : wfOReq dn r = true) : closes (seenW r) = closes (strictW r) := by
   obtain ⟨_, _, hf, _⟩ := wfOReq_facts r h
-  exact pickClose_strict_seen r.fields false (fun f hfm => ⟨hf f hfm, hlt f hfm⟩)
+  exact pickClose_strict_seen r.fields false hf
 
-theorem noLeadTab_nofold (f : FLine) (h : f.conts = []) : noLeadTab f = true := by
-  obtain ⟨k, raw, cs⟩ := f
-  simp only at h; subst h
-  have hE := noBlankEnds_trimOWS raw
-  obtain ⟨hh, _⟩ := noBlankEnds_facts _ hE
-  unfold noLeadTab
-  rw [hval_nofold]
-  cases hc : (trimOWS raw).head? with
-  | none => rfl
-  | some c =>
-    have := (hh c hc).2
-    simp [this]
+/-- method, target and body of what the handler is handed are what the strict decoder assigns, request by request -/
+theorem serve_own_strict' (cfg : Cfg) (e : End) (rs : List OReq)
+    (hw : ∀ r ∈ rs, wfOReq cfg.disableNorm r = true ∧ withinLimits cfg (seenW r) = true) :
+    (handled (serve cfg e (encAllO rs))).map (fun s => (s.head.method, s.head.uri, s.body)) =
+      ((served cfg.disableKeepalive (rs.map strictW)).map toSpec).map (fun q => (q.method, q.target, q.body)) :=
+  serve_own_strict cfg e rs hw (fun r hr => closes_seen_eq_strict r (hw r hr).1)
+
+/-- … and the same requests are served in both readings -/
+theorem served_seen_strict (dk : Bool) {dn : Bool} (rs : List OReq) (hw : ∀ r ∈ rs, wfOReq dn r = true) :
+    served dk (rs.map seenW) = (servedBy dk (fun r => closes (strictW r)) rs).map seenW := by
+  rw [served_map, servedBy_congr _ _ _ rs (fun r hr => closes_seen_eq_strict r (hw r hr))]
 
 end Hertz.H1.RT
